@@ -485,6 +485,7 @@ pub fn run(tier_name: &str, seed: u64) -> i32 {
                     signature: f.signature.clone(),
                     detail,
                     case: json!({"check": "C14", "case": min}),
+                    origin: Some((shard, run)),
                 });
             }
         }
@@ -509,7 +510,7 @@ pub fn run(tier_name: &str, seed: u64) -> i32 {
         }),
         exhaustive: false,
     };
-    report::finish(meta, tally, wall, &|v| replay_all(&v["case"]))
+    report::finish(meta, tally, wall, &|v| replay_all(&v["case"]), &|shard, run| case_json(tier_name, seed, shard, run))
 }
 
 
@@ -525,4 +526,9 @@ pub fn digest(seed: u64, i: u64) -> Vec<String> {
             format!("C14 {i} {j} {} {:016x} {}", out.log.hex(), simctx::name_hash(&format!("{:?}", out.result)), out.schedule.len())
         })
         .collect()
+}
+
+pub fn case_json(tier_name: &str, seed: u64, shard: usize, run: usize) -> Option<Value> {
+    let t = tier(tier_name);
+    gen_case(seed, shard as u64, run as u64, &t).map(|c| json!({"check": "C14", "case": c}))
 }
